@@ -4,6 +4,7 @@ import (
 	"fmt"
 	"go/token"
 	"go/types"
+	"strings"
 
 	"golang.org/x/tools/go/ssa"
 )
@@ -71,11 +72,29 @@ func fieldVarOfAddr(v ssa.Value) *types.Var {
 	return st.Field(fa.Field)
 }
 
+// isAtomic matches the sync/atomic functions named (LoadInt32, StoreInt32, SwapInt32, AddInt32, CompareAndSwapInt32)
+// and the equivalent methods of the typed atomics (atomic.Int32.Load/Store/Swap/Add/CompareAndSwap): in both forms
+// argument 0 is the address of the word.
 func isAtomic(c *ssa.CallCommon, names ...string) bool {
 	for _, n := range names {
 		if isPkgFunc(c, "sync/atomic", n) {
 			return true
 		}
+		m := strings.TrimSuffix(strings.TrimSuffix(n, "Int32"), "Int64")
+		if !c.IsInvoke() && isMethodNamed(c, "sync/atomic", "", m) {
+			return true
+		}
+	}
+	return false
+}
+
+// isInt32Word: int32 or atomic.Int32.
+func isInt32Word(t types.Type) bool {
+	if b, ok := t.Underlying().(*types.Basic); ok && b.Kind() == types.Int32 {
+		return true
+	}
+	if n := namedOf(t); n != nil && n.Obj().Pkg() != nil && n.Obj().Pkg().Path() == "sync/atomic" && n.Obj().Name() == "Int32" {
+		return true
 	}
 	return false
 }
@@ -124,7 +143,7 @@ func resolveSide(p *Prog, owner string) *taskSide {
 		f := st.Field(i)
 		switch t := f.Type().(type) {
 		case *types.Pointer:
-			if b, ok := t.Elem().(*types.Basic); ok && b.Kind() == types.Int32 {
+			if isInt32Word(t.Elem()) {
 				if s.counter != nil {
 					undecided("task type %s has two *int32 fields", s.taskT)
 				}
@@ -537,6 +556,10 @@ func ruleToken(p *Prog, r *RuleResult) {
 					}
 				case *ssa.UnOp:
 					if fv := fieldVarOfLoad(x); fv != nil && (fv == s.parentCounter || (s.parentCounter == nil && fv.Name() == "blockID")) {
+						hasBase = true
+					}
+				case *ssa.Call:
+					if isAtomic(&x.Call, "LoadInt32") && len(x.Call.Args) > 0 && fieldVarOfAddr(x.Call.Args[0]) == s.parentCounter {
 						hasBase = true
 					}
 				}
@@ -1127,7 +1150,7 @@ func rulePoison(p *Prog, r *RuleResult) {
 		if !ok || len(ret.Results) == 0 {
 			return
 		}
-		v := stripConv(ret.Results[len(ret.Results)-1])
+		v := stripConv(rvals(ret)[len(ret.Results)-1])
 		if fieldVarOfLoad(v) == s.errField {
 			scan = true
 		}
@@ -1152,7 +1175,7 @@ func rulePoison(p *Prog, r *RuleResult) {
 // retMayBeNil: the idx-th operand of ret may be nil, taking into account named results written just before the
 // return and nil tests that dominate the return.
 func retMayBeNil(ret *ssa.Return, idx int) bool {
-	v := ret.Results[idx]
+	v := rvals(ret)[idx]
 	if u, ok := v.(*ssa.UnOp); ok && u.Op == token.MUL {
 		if al, ok := u.X.(*ssa.Alloc); ok {
 			for _, in := range u.Block().Instrs {
@@ -1220,7 +1243,7 @@ func scanResultPropagated(p *Prog, r *RuleResult, parent *ssa.Function, sc *ssa.
 		for rb := range reach(ifi.Block().Succs[succ], nil, nil) {
 			if ret, ok := rb.Instrs[len(rb.Instrs)-1].(*ssa.Return); ok && rb != parent.Recover && retMayBeNil(ret, len(ret.Results)-1) {
 				// returning the tested value itself is fine
-				if !seen[stripConv(ret.Results[len(ret.Results)-1])] && !seen[ret.Results[len(ret.Results)-1]] {
+				if !seen[stripConv(rvals(ret)[len(ret.Results)-1])] && !seen[rvals(ret)[len(ret.Results)-1]] {
 					bad = true
 				}
 			}
@@ -1286,6 +1309,10 @@ func staleBase(p *Prog, s *taskSide, v ssa.Value, resolve func(ssa.Value) ssa.Va
 			walk(x.X, d+1)
 		case *ssa.UnOp:
 			if fv := fieldVarOfLoad(x); fv != nil && x.Parent() == s.parent && isInt32(fv.Type()) {
+				loads = append(loads, x)
+			}
+		case *ssa.Call:
+			if isAtomic(&x.Call, "LoadInt32") && len(x.Call.Args) > 0 && fieldVarOfAddr(x.Call.Args[0]) == s.parentCounter && x.Parent() == s.parent {
 				loads = append(loads, x)
 			}
 		}
